@@ -1,5 +1,7 @@
 import os, sys, hashlib, re, json
-from vf import Check, Stream, VERIF, BUILD, REPO, sh, log, first_diff
+from vf import Check, Stream, TieBroken, VERIF, BUILD, REPO, sh, log, first_diff
+sys.path.insert(0, os.path.join(os.path.dirname(os.path.abspath(__file__)), '..', 'gen'))
+import tables_future
 
 QUICK_MUL = 22  # stream sizes of the quick tier (thorough: ten times as many)
 NF = 8  # futures a generated case uses at most (harness/driver allow 64)
@@ -35,7 +37,8 @@ def gen_script(rng, ncl, nops, nf=NF, work3=0.06, pauses=0.1, long_pause=0.0, wo
         if r < 0.42:
             arg += 1 + rng.randrange(5)
             w = 3 if (rng.random() < work3 and c == 0 and len(pending3) < 2) else rng.choice(works)
-            ops.append('c %d start %d %d %d' % (c, f, arg * (1 if rng.random() < 0.9 else -1), w))
+            verb = 'start' if rng.random() < 0.8 else rng.choice(START_VARIANTS)
+            ops.append('c %d %s %d %d %d' % (c, verb, f, arg * (1 if rng.random() < 0.9 else -1), w))
             if w == 3:
                 pending3.add(f)
         elif r < 0.58:
@@ -74,6 +77,9 @@ PROFILES = {
                 '* post tail * * 1000000 sleep 60 150', '* post head * * 1000000 sleep 60 150'],
     # worker in front of the pthread_cond_broadcast of a Future's Signal (inside Signal::set())
     'lifetime': ['w prebc fut * * 1000000 sleep 250 700'],
+    # POSIX allows pthread_cond_wait to return without a signal: one wait in four does, on every
+    # condition variable (the Futures' and the pool's); the worker is slow to publish the completion
+    'spurious': ['* cwait * * * 1000000 spurious 250', 'w pre fut * * 1000000 sleep 150 500'],
 }
 
 
@@ -217,66 +223,110 @@ class C10(Check):
     # part (theorems, what is modelled/proved) is to be completed by the owner of coq/Future.
     level_text = ('Theorems in Coq, for every schedule (list of thread moves) and every well-formed configuration (queue capacity, '
                   'pool bounds, lazy pool creation, any number of client threads, futures and script operations, any started '
-                  'function) of an executable interleaving model of src/Future.cpp + Future.hpp (threads = program counters over '
-                  'the atomic steps of the code: MPMC ring push/pop with per-slot sequence numbers, FastSignal set/reset/wait '
-                  'split at the atomic operation and the inner Signal, worker loop, ThreadPool::run with back-pressure, growing '
-                  'and shrinking, lazy pool creation under the spin lock, Future start/join/abort/set/result): an inductive '
-                  'invariant (ring ticket invariant composed with "who holds which call" clauses and a trace property) gives: '
+                  'function; well-formed = capacity >= 1, every future used by ONE client thread, started functions do not start '
+                  'futures themselves) of an executable interleaving model of src/Future.cpp + Future.hpp + Signal::set (threads = '
+                  'program counters over the atomic steps of the code: MPMC ring push/pop with per-slot sequence numbers, FastSignal '
+                  'set/reset/wait split at the atomic operation and the inner Signal, worker loop, ThreadPool::run with back-pressure, '
+                  'growing and shrinking, lazy pool creation under the spin lock, Future start/join/abort/set/result/destructor): an '
+                  'inductive invariant (ring ticket invariant composed with "who holds which call" clauses and a trace property) gives: '
                   'each started call is executed at most once; when join()/the destructor/the result conversion returns the call '
                   'has been executed exactly once with the arguments given and has completed; the converted result is the '
-                  "function's return value; after join the state is aborted only if abort() was requested since the start and "
-                  'finished otherwise; no ring slot is handed to two consumers or producers, a pop returns the job pushed under its '
-                  'ticket, queued jobs are not lost. The liveness clause is refuted by a machine-checked witness for the sleep/wake '
-                  'handshake as it was before fixes/C10/01-03 (three genuine lost-wake-up defects, repaired); for the repaired code '
-                  'it is validated by explicit-state search of the model and by real-thread runs, not proved. The model is tied to '
-                  'the code by running the same client scripts on the extracted model/spec and on an ASan/UBSan build of the working '
-                  'tree with real threads under injected delays and gated replays of model schedules.')
-    level_note = ('PROVED (Properties_C10.v, all closed under the global context): model_invariant_all_schedules, '
+                  "function's return value, also for a conversion after an earlier join() (the value of the LATEST start); when the "
+                  'DESTRUCTOR returns no worker holds the call record or stands inside the completion handshake any more (proved for '
+                  'Signal::set as repaired by fixes/C10/04, refuted by a machine-checked witness for Signal::set as it was: unlock, then '
+                  'broadcast on a possibly destroyed condition variable - a genuine defect, repaired); after join the state is aborted '
+                  'only if abort() was requested since the start and finished otherwise; no ring slot is handed to two consumers or '
+                  'producers, a pop returns the job pushed under its ticket, queued jobs are not lost. LIVENESS ("every join eventually '
+                  'returns"): NOT PROVED for the code as it is now; proved are only: the state can change no more exactly when every '
+                  'thread is blocked, and such a state is permanent (join_liveness_partial); refuted by machine-checked witnesses (a) for '
+                  'the sleep/wake handshake as it was before fixes/C10/01-03 (three genuine lost-wake-up defects, repaired) and (b) for '
+                  'the code as it is now when started functions start futures themselves ("started from any threads": workers block in '
+                  'start() on a full queue that only workers drain - OPEN finding). Otherwise the clause is validated by explicit-state '
+                  'search of the model in bounded configurations and by real-thread runs. The model is tied to the code by running the '
+                  'same client scripts on the extracted model/spec and on an ASan/UBSan build of the working tree with real threads under '
+                  'injected delays, spurious wake-ups and gated replays of model schedules.')
+    level_note = ('PROVED (Properties_C10.v, 19 theorems, all closed under the global context): model_invariant_all_schedules, '
                   'each_call_runs_at_most_once, joined_call_ran_exactly_once, run_uses_given_arguments, starts_unique, '
-                  'result_is_return_value, aborted_only_if_requested, ring_ticket_invariant, ring_no_two_consumers, '
-                  'ring_no_two_producers, ring_pop_reads_pushed, ring_no_job_lost, deadlock_is_permanent, '
-                  'join_liveness_refuted_original (exists a schedule of the OLD handshake, c_fixed=false, ending in a state with an '
-                  'unfinished client in which no thread can ever move; 170-move witness by vm_compute). Hypothesis of all safety '
-                  'theorems: wf_cfg = capacity >= 1, every future named in a script exists and is used by ONE client thread (two '
-                  'threads operating one Future object concurrently is outside the statement). NOT PROVED: "every join eventually '
-                  'returns" for the code as it is now (c_fixed=true: worker re-arms the wake-up after a successful second pop, '
-                  'FastSignal::reset re-checks _state, the shrink request wakes a worker). It is validated only by (1) exhaustive '
-                  'explicit-state search (ocaml/future_driver.ml search, not a proof) of the model: 1 client, 3 workers, windows of 4 '
-                  'script operations, queue capacity 4 (9.3M states, exhausted) and 1 (15.5M states, exhausted): no reachable state with all threads '
-                  'blocked and a client unfinished, while the same search finds the deadlocks of the old handshake; (2) the '
-                  'real-thread runs below. Fairness of the OS scheduler is not modelled. Modelling abstractions: sequential '
-                  'consistency (visibility on real hardware is not modelled); Signal (mutex+condvar+flag) is an atomic flag with a '
-                  'wait that passes iff set (its own correctness is C11); Time::ticks is a scheduler-chosen bit; the Thread object '
-                  'list (_threads/_terminated), ~ThreadPool and deletion of the call record are not modelled; counters are '
-                  'unbounded. '
+                  'result_is_return_value, result_after_join (OGet of a future that is not joinable = return value of the latest start), '
+                  'destructor_waits_for_worker (c_sigfix = true: every EvDestroy is clean = no thread stands at PopRead/PopRelease/KWSet/'
+                  'KWRearm/WCall/WStore/WRdAbort/WSwap/WSigSet/WBcast for that future), destructor_waits_refuted_original (c_sigfix = '
+                  'false: a schedule ends with the worker in front of the broadcast and the Future destroyed), aborted_only_if_requested, '
+                  'ring_ticket_invariant, ring_no_two_consumers, ring_no_two_producers, ring_pop_reads_pushed, ring_no_job_lost, '
+                  'join_liveness_partial (forall t clk, step leaves s unchanged <-> all_blocked s; all_blocked is permanent), '
+                  'deadlock_is_permanent, join_liveness_refuted_original (OLD handshake, c_fixed = false, 170-move witness), '
+                  'join_liveness_refuted_nested_start (code as it is now, c_nested = true: three started functions that each start another '
+                  'future, queue capacity 1, 115-move witness ends with the three workers in the back-pressure loop of ThreadPool::run and '
+                  'the client in join(); no started function waits for abort() or a future). Hypothesis of all safety theorems: wf_cfg = '
+                  'capacity >= 1, every future named in a script exists and is used by ONE client thread (two threads operating one Future '
+                  'object concurrently is outside the statement), c_nested = false (started functions that start futures are outside the '
+                  'safety theorems; they are covered by the correspondence runs - stream nested - and by the refutation above). '
+                  'NOT PROVED: "every join eventually returns" for the code as it is now (c_fixed = c_sigfix = true, c_nested = false); the '
+                  'intended statement is in the header of Properties_C10.v: forall cfg own sched, wf_cfg cfg own -> c_fixed cfg = true -> '
+                  'c_sigfix cfg = true -> terminating_scripts cfg = true -> deadlocked cfg (fst (exec cfg sched)) = false, plus a fairness/'
+                  'measure argument against livelock. It is validated only by (1) exhaustive explicit-state search (ocaml/future_driver.ml '
+                  'search, not a proof) of the model: 1 client, 3 workers, windows of 4 script operations, queue capacity 4 (9.3M states, '
+                  'exhausted) and 1 (15.5M states, exhausted); 2 clients, 3 futures, capacity 1, the whole run (7.0M states, exhausted): no '
+                  'reachable state with all threads blocked and a client unfinished, while the same search finds the deadlocks of the old '
+                  'handshake and a random-schedule hunt finds the nested-start deadlock; (2) the real-thread runs below. Fairness of the OS '
+                  'scheduler is not modelled. Modelling abstractions: sequential consistency (visibility on real hardware is not modelled); '
+                  'Signal (mutex+condvar+flag) is an atomic flag with a wait that passes iff set (its own correctness, including spurious '
+                  'wake-ups, is C11) - only the position of the broadcast in Signal::set relative to the unlock is modelled (WBcast); '
+                  '`delete` of a Future = destructor (join) + EvDestroy, the object created afterwards is another future index (memory '
+                  're-use is not modelled); Time::ticks is a scheduler-chosen bit; the Thread object list (_threads/_terminated), '
+                  '~ThreadPool and deletion of the call record are not modelled; a Thread::start that fails leaves _threadCount incremented '
+                  '(the pool then believes in a worker that does not exist; not modelled, Thread::start never fails in the runs); counters are '
+                  'unbounded. OPEN FINDING (proposed known_findings entry, witness corpus/C10/open/nested-start-full-queue.ops): a started '
+                  'function that starts another future blocks in start() for ever when the queue is full and every worker is inside such a '
+                  'function; a repair (workers must not wait in the back-pressure loop: run the job inline, or an unbounded hand-off for '
+                  'worker-side starts) changes the design of ThreadPool::run. '
                   'Tie between model/spec and the C++ (validated by correspondence only, not proved): the harness includes the '
-
                   'working tree\'s src/Future.cpp, installs a ThreadPool(min,max,queue) per case and runs the client scripts as real '
                   'threads; every __sync builtin in Future.cpp (force-included harness/future_points.h) calls a hook before and after, '
                   'pthread_cond_wait/pthread_cond_broadcast of libnstd are wrapped (ld --wrap). The hooks inject (a) pseudo-random '
-                  'yields/sleeps per (case seed, thread), (b) targeted delays at named points (profiles sleepwake/handshake/publish), '
-                  '(c) gated replays of two model schedules (corpus/C10: a thread is held at a point until another thread has passed '
-                  'another point; every gate wait is bounded by 2 s, so a gate cannot hang a case). The observations compared are '
-                  'schedule-independent facts only: execution counter and argument echo per call, converted results, '
-                  'join-after-completion stamps, isFinished/isAborted after join, number of run() calls, worker count <= max, '
-                  'no deadlock within a 20 s watchdog (its report `deadlock phase=… queue… enq.state…` is an observation, so a hang is a '
-                  'spec mismatch), ASan/UBSan clean. Real threads explore only the interleavings the scheduler and the injected '
-                  'delays produce; the interleaving model is not replayed step by step against the code except for the two gated '
-                  'schedules. Once two cases of a run have hung the remaining cases run under a 6 s watchdog and after eight hangs '
-                  'they are not run (the run has failed by then).')
+                  'yields/sleeps per (case seed, thread), (b) targeted delays at named points (profiles sleepwake/handshake/publish/'
+                  'lifetime), (c) spurious returns of pthread_cond_wait (profile spurious), (d) gated replays (corpus/C10: a thread is held '
+                  'at a point until another thread has passed another point; every gate wait is bounded, so a gate cannot hang a case). '
+                  'Every Future the harness creates is registered with its address range from `new` until `delete` has returned; a '
+                  'pthread_cond_broadcast of libnstd on a condition variable outside the pool\'s two signals and outside every live Future '
+                  'is counted (`lifetime late n`; ASan cannot see it because glibc is not instrumented). Started functions: free functions '
+                  'of arity 0-5 and member functions of arity 0-4 on Future<int64> and Future<void> (every one of the 22 overloads of start), '
+                  'with argument echo; in addition gen/tables_future.py re-reads Future.hpp and Call.hpp on every run and compares the 22 start '
+                  'overloads, the 2 proc templates and the 22 call records token by token with the single template written out per arity '
+                  '(TieBroken names the overload that differs). The observations compared are schedule-independent facts only: execution counter and argument echo per call, '
+                  'converted results, join-after-completion stamps, isFinished/isAborted after join, number of run() calls, worker count '
+                  '<= max, quiescence after the last join (ring empty, processed == pushed), no broadcast on a destroyed Future, no '
+                  'deadlock within a 20 s watchdog (its report `deadlock phase=… queue… enq.state…` is an observation, so a hang is a spec '
+                  'mismatch), ASan/UBSan clean. Real threads explore only the interleavings the scheduler and the injected delays produce; '
+                  'the interleaving model is not replayed step by step against the code except for the gated schedules: ring tickets, '
+                  'FastSignal state and spawn/shrink decisions of the model are never compared with the code\'s. Once two cases of a run '
+                  'have hung the remaining cases run under a 6 s watchdog and after eight hangs they are not run (the run has failed by then).')
     technique = ('differential correspondence of the extracted model/spec with an ASan/UBSan build of the real code run by real '
-                 'threads with injected yields/sleeps at the __sync points, targeted delays and two gated (partial-order) replays of '
-                 'model schedules')
-    rule = ('cases = client scripts (start/join/get/check/abort/pause per client thread, every future owned by one client) on a pool '
-            '(min 0-3, max 3-6, queue capacity 1-16, 1-4 clients, clock scale, lazy creation); streams: single client, several '
-            'clients, full queue (capacity 1-2, more slow calls than workers), shrink (scaled clock, idle workers retire), lazy pool '
-            'creation raced, and three targeted-delay profiles (worker sleep/wake handshake, completion handshake with '
-            'join/check/get right after, queue slot publication); corpus = two gated replays (lost wake-up by a late reset + null '
-            'job; FastSignal set/reset race); a case is non-trivial when it starts >= 3 calls and uses >= 2 client threads or '
-            'starts >= 5 calls; distinct = distinct op text')
-    assumptions = ['the interleavings of the real code are sampled (scheduler + injected delays + two gated schedules), not enumerated',
+                 'threads with injected yields/sleeps at the __sync points, targeted delays, spurious condition-variable wake-ups, a live-'
+                 'object ledger for Futures checked at every pthread_cond_broadcast, and four gated (partial-order) replays of model schedules')
+    rule = ('cases = client scripts (start through any overload/join/get/check/abort/destroy/pause per client thread, every future owned by '
+            'one client) on a pool (min 0-3, max 3-6, queue capacity 1-64, 1-4 clients, clock scale, lazy creation); streams: single client, '
+            'several clients, full queue (capacity 1-2, more slow calls than workers), shrink (scaled clock, idle workers retire), lazy pool '
+            'creation raced, targeted-delay profiles (worker sleep/wake handshake, completion handshake with join/check/get right after, '
+            'queue slot publication), lifetime (Future deleted right after its result was taken, worker delayed before the broadcast), '
+            'variants (all start overloads, Future<int64> and Future<void>), reuse (start-get-start-get on one object, half of the cases '
+            'with delayed completion or spurious wake-ups), burst (16 futures, 24-48 starts, several workers popping from a full queue), '
+            'nested (started functions start futures, queue never full); corpus = four gated replays (lost wake-up by a late reset + null '
+            'job; FastSignal set/reset race; shrink null job on a queue of capacity 1; late broadcast on a destroyed Future); a case is '
+            'non-trivial when it starts >= 3 calls and uses >= 2 client threads or starts >= 5 calls; distinct = distinct op text')
+    assumptions = ['the interleavings of the real code are sampled (scheduler + injected delays + spurious wake-ups + four gated schedules), not enumerated',
                    'a case that does not end within the 20 s watchdog counts as a deadlock (cases take milliseconds)',
-                   'gate op lines are scheduling directives for the harness only; model and spec read them as pause']
+                   'gate op lines are scheduling directives for the harness only; model and spec read them as pause',
+                   'the safety theorems assume that started functions do not start futures themselves and that one thread operates a Future object',
+                   'liveness of the code as it is now is searched in bounded model configurations, not proved']
+
+    def gen_tables(self):
+        """translator tie: the 22 hand-copied `start` overloads and 2 `proc` templates of Future.hpp and the 22 call records
+        of Call.hpp are re-read and compared token by token with the one template the model mirrors (gen/tables_future.py)"""
+        diffs, summary = tables_future.compare_templates()
+        if diffs:
+            raise TieBroken('%d of the hand-copied templates of Future.hpp / Call.hpp differ from the template FutureModel.v mirrors: %s'
+                            % (len(diffs), ' ;; '.join(m for (_, m) in diffs[:4])))
+        return [summary]
 
     @property
     def harness_flags(self):
@@ -287,7 +337,7 @@ class C10(Check):
     def shrink(self, case, pred, budget=400):
         """A gated replay (corpus witness) is a hand-made schedule: every line matters, and every
         candidate that still hangs costs a full watchdog period.  It is reported as it is."""
-        if any(' gate rule ' in l and ' sleep ' not in l for l in case):
+        if any(' gate rule ' in l and ' sleep ' not in l and ' spurious ' not in l for l in case):
             return case
         return Check.shrink(self, case, pred, budget=min(budget, 60))
 
@@ -346,7 +396,7 @@ class C10(Check):
                 reason = ('started function blocked in start() on a full queue (open finding): every worker waits in ThreadPool::run for a '
                           'pop that only workers perform; the watchdog reports `%s`' % dl[0])
             elif dl:
-                gated = any(' gate rule ' in l and ' sleep ' not in l for l in cases[i])
+                gated = any(' gate rule ' in l and ' sleep ' not in l and ' spurious ' not in l for l in cases[i])
                 reason = ('%s never ends (spec: all %d operations of the scripts return); the watchdog reports `%s`'
                           % ('gated replay of a model schedule' if gated else 'case', len(spec_obs[i]), dl[0]))
             fails.append((i, k, reason))
@@ -367,7 +417,7 @@ class C10(Check):
         return out
 
     def nontrivial(self, case, obs):
-        starts = sum(1 for l in case if ' start ' in l)
+        starts = sum(1 for l in case if re.match(r'c \d+ start', l))
         clients = len({l.split()[1] for l in case if l.startswith('c ')})
         return starts >= 3 and (clients >= 2 or starts >= 5)
 
@@ -464,7 +514,7 @@ class C10(Check):
         cases = []
         for i in range(25 * mul):
             ncl = rng.choice([1, 1, 2])
-            prof = profile_lines(rng.choice(['handshake', 'lifetime'])) if i % 2 else []
+            prof = profile_lines(rng.choice(['handshake', 'lifetime', 'spurious', 'spurious'])) if i % 2 else []
             cases.append([cfg_line(cmin=rng.choice([0, 1]), cmax=3, q=rng.choice([1, 2, 4]), ncl=ncl, perturb=0 if prof else rng.choice([0, 1, 2]), seed=sd())]
                          + prof + gen_reuse(rng, ncl, rng.randrange(2, 6)))
         out.append(Stream('reuse', cases, note='start, get, start again on the same Future, get: results of distinct calls; half of the cases with the completion handshake delayed'))
